@@ -24,7 +24,9 @@ pub fn pacing_table(i: u8) -> Pacing {
     match i {
         0 => Pacing { min_sleep: 0, ..Pacing::DEFAULT },
         1 => Pacing { min_sleep: 2, ..Pacing::DEFAULT },
-        _ => Pacing { min_sleep: 1, sleep_factor: 1.0, ..Pacing::STOP_THE_WORLD },
+        2 => Pacing { min_sleep: 1, sleep_factor: 1.0, ..Pacing::STOP_THE_WORLD },
+        // an infinite sleep factor: 0 survivors x infinity is NaN, which must never reach allocation_debt()
+        _ => Pacing { min_sleep: 3, sleep_factor: f64::INFINITY, ..Pacing::DEFAULT },
     }
 }
 
